@@ -15,8 +15,8 @@
 From Coq Require Import ZArith QArith Qcanon Arith Bool List.
 From QV.Core Require Import OF QcOF Sums Mat Cplx Psd C01_HermPsd.
 From QV.Exec Require Import Base Core_ops C01_ops.
-From QV.Model Require Import QObj HermEmbed C01_Verdicts.
-From QV.Proofs Require Import C01_Verdicts C01_Main C01_Exec C01_Examples.
+From QV.Model Require Import QObj HermEmbed C01_Verdicts C01_History.
+From QV.Proofs Require Import C01_Verdicts C01_Main C01_Exec C01_History C01_Examples.
 Import ListNotations.
 
 (* ================================================================== (a) the positive-semidefiniteness decision *)
@@ -284,6 +284,34 @@ Proof. intros F d B v x i j. split; [apply state_zero_is_zero_operator|]. split;
   split; [apply (gate_zero_is_zero_operator F d B v i j)|]. split; [apply (gate_zero_is_zero_operator F d B v i j)|apply mprocess_zero_is_zero_operator]. Qed.
 Print Assumptions C01_zero_objects_are_zero.
 
+(* ================================================================== (g) histories of queries on one object *)
+(* Model/C01_History.v: an object is an immutable value, the only mutable thing a verdict sees is the global Settings atol; a history is a
+   sequence of Settings.set_atol(x) and queries (equality / inequality / is_physical, each tolerance optional).  The answer to a query
+   after ANY history h1, whatever follows, is the pure verdict at the tolerance in force at that call: the explicit argument, else the
+   value set last in h1 (else the initial one) -- independent of earlier queries and earlier settings.  [veq], [vineq] : the pure verdicts
+   of the object as functions of the tolerance, any object type (instances: C01_history_instances). *)
+Theorem C01_history_answer : forall (F : OF) (veq vineq : F -> bool) (st : F) (h1 : list (hop F)) q a b (h2 : list (hop F)),
+  nth (length (run_history veq vineq st h1)) (run_history veq vineq st (h1 ++ HQuery q a b :: h2)) false
+  = hanswer veq vineq (final_settings st h1) q a b.
+Proof. exact history_answer. Qed.
+Print Assumptions C01_history_answer.
+
+(* the whole answer list: queries are inert (no memo, no side effect), only set_atol changes what later atol=None queries see *)
+Theorem C01_history_queries_inert : forall (F : OF) (veq vineq : F -> bool) (st : F) (h1 : list (hop F)) q a b (h2 : list (hop F)),
+  run_history veq vineq st (h1 ++ HQuery q a b :: h2)
+  = run_history veq vineq st h1 ++ hanswer veq vineq (final_settings st h1) q a b :: run_history veq vineq (final_settings st h1) h2.
+Proof. exact history_queries_inert. Qed.
+Print Assumptions C01_history_queries_inert.
+
+(* for the four object types the is_physical answer of a history step is the model's is_physical at the setting in force *)
+Theorem C01_history_instances : forall (F : OF) (st rtol : F) flag d B (v : rvec F) m (vs : nat -> rvec F) (HS : rmat F) (hss : nat -> rmat F) a b,
+  hanswer (fun t => state_is_trace_one d B v t rtol) (state_is_psd d B v) st QPhys a b = state_is_physical st rtol d B v a b /\
+  hanswer (fun t => povm_is_identity_sum d B m vs t rtol) (povm_is_psd d B m vs) st QPhys a b = povm_is_physical st rtol d B m vs a b /\
+  hanswer (gate_is_tp flag d B HS) (gate_is_cp d B HS) st QPhys a b = gate_is_physical st flag d B HS a b /\
+  hanswer (mprocess_is_sum_tp flag d B m hss) (mprocess_is_cp d B m hss) st QPhys a b = mprocess_is_physical st flag d B m hss a b.
+Proof. intros. split; [apply hanswer_state|]. split; [apply hanswer_povm|]. split; [apply hanswer_gate|apply hanswer_mprocess]. Qed.
+Print Assumptions C01_history_instances.
+
 (* ================================================================== tie: the executed ops ARE the model *)
 (* what the harness obtains from the extracted driver for a request is exactly the model's verdicts on the decoded request *)
 Theorem C01_exec_state : forall (dz en inn rq : Z) (st aeq aineq rtol : Qc) (l : list Qc),
@@ -390,3 +418,11 @@ Example C01_example_origin : forall st : Qc, kle Qc_OF (c0 Qc_OF) st ->
 Proof. intros st Hst. destruct sd2 as [S1 [S2 S3]].
   exact (C01_origin_objects_physical Qc_OF st (c0 Qc_OF) false 4 q2 pauli2n 3 None None (fun _ => pauli2n_orthonormal) pauli2n_identity0 S1 S2
            (le_S _ _ (le_S _ _ (le_S _ _ (le_n 1)))) (le_S _ _ (le_S _ _ (le_n 1))) Hst Hst (k_refl Qc_OF _)). Qed.
+(* one object, a history: Settings 1/5 -> is_physical() False; Settings 1/4 -> True; Settings 1/5 again -> PSD verdict False again;
+   explicit atol 1/4 while Settings is 1/5 -> True; trace verdict True throughout *)
+Example C01_example_history :
+  @run_history Qc_OF (fun t => state_is_trace_one 4 pauli2n ex_neg t q0) (state_is_psd 4 pauli2n ex_neg) q0
+    [@HSet Qc_OF (qc 1 5); HQuery QPhys None None; @HSet Qc_OF (qc 1 4); HQuery QPhys None None; @HSet Qc_OF (qc 1 5); HQuery QIneq None None;
+     @HQuery Qc_OF QIneq None (Some (qc 1 4)); HQuery QEq None None]
+  = [false; true; false; true; true].
+Proof. exact ex_neg_history. Qed.
